@@ -7,9 +7,11 @@
 (*  B  constraint space: few patterns that share trie nodes, flows with every combination  *)
 (*     of method / header / query / status constraints (user and system flows);            *)
 (*     transactions vary method, header, query, status and side                            *)
-EXTENDS FilterTreeI
+EXTENDS FilterTreeI, TLCExt
 
 CONSTANTS MaxPath, NFlowsA
+
+SymA == <<"a", "b">>      \* space A (patterns and URLs) is invariant under a <-> b
 
 PN == <<"p", "q", "r", "x">>
 HostH == <<"h", "com">>
@@ -29,7 +31,8 @@ Plain(p, t) == [pat |-> p, m |-> {}, h |-> {}, q |-> {}, s |-> {}, typ |-> t]
 FlowsA == {Plain(p, "user") : p \in PatternsA}
 
 UrlsA == UrlsOver({HostH}, {"a", "b", "c"}, MaxPath + 1)
-    \cup UrlsOver({<<"g", "com">>, <<"h", "com", "x">>, <<"h">>}, {"a"}, 1)
+    \cup UrlsOver({<<"g", "com">>, <<"h", "com", "x">>, <<"h">>}, {"a", "b"}, 1)
+    \cup {Mk(<<"h">>, <<"com">>), Mk(<<"h">>, <<"com", "a">>), Mk(<<"h">>, <<"com", "b">>)}   \* a host label moved into the path
 
 Req(u, meth, hdr, qry) == [side |-> "req", url |-> u, method |-> meth, hdr |-> hdr, qry |-> qry, status |-> 0]
 Resp(u, meth, st)      == [side |-> "resp", url |-> u, method |-> meth, hdr |-> {}, qry |-> {}, status |-> st]
@@ -57,6 +60,48 @@ HdrQryB == {<<hdr, {}>> : hdr \in {{}, {<<"x-key", "v1">>}, {<<"x-key", "V2">>},
       \cup {<<{}, qry>> : qry \in {{<<"k", "1">>}, {<<"k", "2">>}}}
 TxnsB == {Req(u, meth, hq[1], hq[2]) : u \in UrlsB, meth \in {"GET", "POST", "HEAD"}, hq \in HdrQryB}
     \cup {Resp(u, meth, st) : u \in UrlsB, meth \in {"GET", "POST", "HEAD"}, st \in {200, 500}}
+
+
+-------------------------------------------------------------------------------
+(* Non-vacuity witnesses: the bounded instance reaches every verdict and every open zone of *)
+(* FilterP, configurations in which several flows are selected, flows sharing a trie node,  *)
+(* and every outcome kind of the traversal.  Always TRUE; prints  "WITNESS <name>"  once    *)
+(* per worker the first time the situation is met (states with at most 2 flows are enough). *)
+Once(reg, name, cond) ==
+    IF TLCGetOrDefault(reg, FALSE) = FALSE /\ cond THEN TLCSet(reg, TRUE) /\ PrintT("WITNESS " \o name) ELSE TRUE
+
+Witnesses ==
+    IF Len(fs) = 0 \/ Len(fs) > 2 THEN TRUE
+    ELSE LET F  == FlowSet(fs)
+             Ps == Pats(F)
+             ex(Pr(_, _)) == \E x \in TxnDomain : \E f \in F : Pr(f, x)
+             vYes(f, x)  == Verdict(f, x, F) = Yes
+             vNo(f, x)   == Verdict(f, x, F) = No
+             z1(f, x)    == WildFacesNothing(f.pat, x.url)
+             z2(f, x)    == MatchesStrict(f.pat, x.url) /\ Shadowed(f.pat, x.url, Ps)
+             z3(f, x)    == UrlV(f.pat, x.url, Ps) = Yes /\ (QueryV(f, x) = Either \/ StatusV(f, x) = Either
+                                                             \/ (x.side = "resp" /\ HeaderV(f, x) = Either))
+             z4(f, x)    == x.side = "req" /\ HeaderV(f, x) = Either
+             z5(f, x)    == MethodV(f, x) = Either
+             extra(f, x) == ~EndsWild(f.pat) /\ NParts(x.url) = NParts(f.pat) + 1
+                            /\ \A i \in 1..NParts(f.pat) : PartMatches(Parts(f.pat)[i], Parts(x.url)[i])
+             missing(f, x) == NParts(x.url) = BodyLen(f.pat) - 1
+                            /\ \A i \in 1..NParts(x.url) : PartMatches(Parts(f.pat)[i], Parts(x.url)[i])
+         IN  /\ Once(11, "must-run", ex(vYes))
+             /\ Once(12, "must-not-run", ex(vNo))
+             /\ Once(13, "Z1-wildcard-faces-nothing", ex(z1))
+             /\ Once(14, "Z2-shadowed", ex(z2))
+             /\ Once(15, "Z3-not-observable-on-this-side", ex(z3))
+             /\ Once(16, "Z4-header-value-case", ex(z4))
+             /\ Once(17, "Z5-method-outside-default-set", ex(z5))
+             /\ Once(18, "extra-trailing-segment", ex(extra))
+             /\ Once(19, "missing-trailing-segment", ex(missing))
+             /\ Once(20, "two-flows-selected", \E x \in TxnDomain : Cardinality(Select(tree, fs, x)) = 2)
+             /\ Once(21, "nothing-selected", \E x \in TxnDomain : Select(tree, fs, x) = {})
+             /\ Once(22, "two-flows-on-one-node", \E p \in DOMAIN tree : tree[p].val # <<>> /\ Len(tree[p].val[1].fl) = 2)
+             /\ Once(23, "one-of-two-on-a-node-selected",
+                      \E p \in DOMAIN tree : tree[p].val # <<>> /\ Len(tree[p].val[1].fl) = 2
+                          /\ \E x \in TxnDomain : Cardinality(Select(tree, fs, x) \cap {tree[p].val[1].fl[1], tree[p].val[1].fl[2]}) = 1)
 
 \* the fast matching operators of FilterP agree with the shared UrlPattern module
 FastAgrees(Ps, Us) ==
